@@ -661,8 +661,8 @@ def oracle_consent(evs, meta):
                 if e.kind == "sig" and e.f[0] == str(x) and e.f[1] == "selected-pair" and e.f[3] == cs:
                     sel = (e.f[4], e.f[5]); sel_t = e.t
                 if e.kind == "sig" and e.f[0] == str(x) and e.f[1] == "state" and e.f[3] == cs:
-                    if e.f[4] == "READY" and ready_t is None:
-                        ready_t = e.t
+                    if e.f[4] in ("CONNECTED", "READY") and ready_t is None:
+                        ready_t = e.t      # a pair is selected from CONNECTED on (a component revived later by the peer's checks would otherwise hide the first FAILED)
                     if e.f[4] == "FAILED" and ready_t is not None and failed_t is None:
                         failed_t = e.t
             if ready_t is None or sel is None:
